@@ -24,6 +24,7 @@ def run(ctx):
     ctx.guard(atomic, ctx)
     ctx.guard(raises, ctx)
     ctx.guard(convert, ctx)
+    ctx.guard(guess, ctx)
     if True:
         from . import lexrules
         lexrules.time_rule(ctx, 'C12-TIME', 'xtuml.load:ModelLoader', extra_regex_fn='xtuml.load:guess_type_name')
@@ -243,6 +244,64 @@ def raises(ctx):
                 construct='xtuml.load:ModelLoader.' + name, key='hook-raises',
                 msg='ModelLoader.%s can return normally: ply would then continue with error recovery and accept part of a '
                     'malformed text' % name)
+
+
+def guess(ctx):
+    '''a class without CREATE TABLE gets its attribute types from guess_type_name(value): every value lexeme the grammar accepts must get a
+    type name (a None type dies later in default_value() with an AttributeError).  Language inclusion on the regex automata:
+    L(token) is included in the union of the prefix languages of guess_type_name's patterns.'''
+    from . import lexrules
+    from ..lexer import RegexNFA, included
+    repo = ctx.repo
+    r = ctx.rule('C12-GUESS', 'every value lexeme the grammar accepts is given a type name by guess_type_name', floor=6,
+                 oracle='token regexes of ModelLoader vs the patterns of guess_type_name (automata inclusion)')
+    g = lexrules.grammar_of(repo, 'xtuml.load:ModelLoader')
+    fn = repo.func('xtuml.load:guess_type_name')
+    Q = 'xtuml.load:guess_type_name'
+    P = param_names(fn, skip_self=False)[0]
+    # the branches: (kind, data, returned)
+    patterns, words = [], set()
+    for node in ast.walk(fn):
+        if not isinstance(node, ast.If):
+            continue
+        ret = [x for x in node.body if isinstance(x, ast.Return)]
+        named = bool(ret) and isinstance(ret[-1].value, ast.Constant) and isinstance(ret[-1].value.value, str)
+        t = node.test
+        m = pm.match('re.match(_R, %s)' % P, t) or pm.match('re.match(_R, %s) is not None' % P, t)
+        if m and isinstance(m['_R'], ast.Constant) and isinstance(m['_R'].value, str):
+            if named:
+                patterns.append(m['_R'].value)
+            continue
+        m = pm.match('%s.upper() in _L' % P, t)
+        if m and isinstance(m['_L'], (ast.List, ast.Tuple, ast.Set)) and all(isinstance(x, ast.Constant) for x in m['_L'].elts):
+            if named:
+                words |= {x.value for x in m['_L'].elts}
+            continue
+        raise AnalysisError('%s: test `%s` of guess_type_name is outside the idioms this rule knows' % (loc(node), src(t)))
+    if not patterns:
+        raise AnalysisError('%s: no re.match branches found in guess_type_name' % loc(fn))
+    union = RegexNFA('(?:%s)[\\s\\S]*' % '|'.join('(?:%s)' % x for x in patterns))
+    rules = {t.name: t for t in g.token_rules}
+    n = 0
+    for pr in g.productions:
+        if pr.head != 'value':
+            continue
+        if len(pr.syms) == 1 and pr.syms[0] not in rules:
+            # a reserved word: its lexeme is the word in any letter case
+            n += 1
+            r.check(pr.syms[0] in words, 'the keyword value %s is given a type' % pr.syms[0], fn, construct=Q, key='word ' + pr.syms[0],
+                    msg='guess_type_name gives no type to the keyword value %s' % pr.syms[0])
+            continue
+        if not all(s_ in rules for s_ in pr.syms):
+            raise AnalysisError('%s: value production `%s` uses a symbol without a token regex' % (loc(pr.fn), ' '.join(pr.syms)))
+        tok = RegexNFA(''.join('(?:%s)' % rules[s_].regex for s_ in pr.syms))
+        ok, w = included(tok, union)
+        n += 1
+        r.check(ok, 'every `%s` lexeme is given a type' % ' '.join(pr.syms), fn, construct=Q, key='covers ' + ' '.join(pr.syms),
+                msg='the grammar accepts the value %r (%s) but no pattern of guess_type_name matches it: the type of an attribute of a class '
+                    'without CREATE TABLE becomes None and building the metamodel dies with an AttributeError instead of a parsing / metamodel '
+                    'exception' % (w, ' '.join(pr.syms)))
+    r.check(n >= 6, '%d value forms examined' % n, fn, construct=Q, key='forms', msg='only %d value forms found in the grammar' % n)
 
 
 def _text_derived_functions(repo):
